@@ -154,13 +154,22 @@ func getKeystoreFromJson(keysJson []byte) (*Keystore, error) {
 	return keystore, nil
 }
 
+// saltedHash returns sha512(privPassphraseSalt ‖ passphrase).  The salted copy is
+// built in a buffer of its own: appending to a.privPassphraseSalt[:] aliases the
+// salt array when the passphrase is empty, and zeroing that "copy" wiped the salt.
+func (a *AddrManager) saltedHash(passphrase []byte) [sha512.Size]byte {
+	salted := make([]byte, 0, len(a.privPassphraseSalt)+len(passphrase))
+	salted = append(salted, a.privPassphraseSalt[:]...)
+	salted = append(salted, passphrase...)
+	hashed := sha512.Sum512(salted)
+	zero.Bytes(salted)
+	return hashed
+}
+
 // NOTE: this func will leave the masterKeyPriv derived
 func (a *AddrManager) checkPassword(passphrase []byte) error {
 	if a.unlocked {
-		saltedPassphrase := append(a.privPassphraseSalt[:],
-			passphrase...)
-		hashedPassphrase := sha512.Sum512(saltedPassphrase)
-		zero.Bytes(saltedPassphrase)
+		hashedPassphrase := a.saltedHash(passphrase)
 		if !bytes.Equal(hashedPassphrase[:], a.hashedPrivPassphrase[:]) {
 			return ErrInvalidPassphrase
 		}
@@ -416,9 +425,7 @@ func (a *AddrManager) updatePrivKeys(pass []byte) error {
 		cKeyExPriv.Zero()
 	}
 
-	saltPassphrase := append(a.privPassphraseSalt[:], pass...)
-	a.hashedPrivPassphrase = sha512.Sum512(saltPassphrase)
-	zero.Bytes(saltPassphrase)
+	a.hashedPrivPassphrase = a.saltedHash(pass)
 	a.unlocked = true
 	return nil
 }
@@ -694,9 +701,7 @@ func (a *AddrManager) signBtcec(hash []byte, addr string, password []byte) (sign
 	}
 	// update cache, mark unlocked
 	if !a.unlocked {
-		saltPassphrase := append(a.privPassphraseSalt[:], password...)
-		a.hashedPrivPassphrase = sha512.Sum512(saltPassphrase)
-		zero.Bytes(saltPassphrase)
+		a.hashedPrivPassphrase = a.saltedHash(password)
 		a.unlocked = true
 	}
 
